@@ -20,6 +20,8 @@
   (tools/props/C01.py), evaluated on every case.
 -/
 import Mhd.Proofs.ConnMem
+import Mhd.Props.C02
+import Mhd.Props.C08
 
 namespace Mhd.C01
 open Mhd.ConnMem
@@ -55,6 +57,36 @@ theorem recv_writes_inside (c : CM) (k : Nat) (h : CMInv c) (r : Nat) (hb : c.rb
     · simp at hok
   have := w.2.2.2.2.2.1 r hb
   exact ⟨by have := w.2.2.1; omega, this, by have := w.1; have := w.2.1; omega⟩
+
+/-! ### Composition with the request-head parsers (C02) and the pool (C08)
+
+The buffer layer above hands the parsers a window `[rb, rb + rbSize)` that lies inside the arena; the
+parsers — byte-accurate models with *checked* access, where every out-of-window index is an explicit
+`fault` — never fault inside the window they are given, for every strictness level, every buffer
+content, every read position and every segmentation of the client's bytes (C02); and the blocks the
+pool hands out are in bounds and pairwise disjoint (C08).  The three statements together are the
+model-level content of "no out-of-bounds access for any client byte stream"; they are collected here
+so that C01's audit depends on all of them. -/
+
+/-- request-line parser: no access outside the received bytes, any level, any segmentation -/
+theorem reqline_parser_no_fault (lvl : Int) (buf : Mhd.Req.Bytes) (rb : Nat) (h : rb ≤ buf.size)
+    (chunks : List Mhd.Req.Bytes) (f : Mhd.Req.Fault) :
+    let sc := Mhd.Req.rlScanner (Mhd.Req.RLFlags.ofLevel lvl)
+    sc.feedAll (sc.run (Mhd.Req.RL.init buf rb)) chunks ≠ .fault f :=
+  Mhd.C02.reqline_no_fault lvl buf rb h chunks f
+
+/-- header-section parser incl. the end-of-headers shift-back: no fault, any level, any segmentation -/
+theorem field_parser_no_fault (lvl : Int) (fieldStart : Nat) (s : Mhd.Req.HS) (hs : Mhd.Req.HSP.Inv s)
+    (chunks : List Mhd.Req.Bytes) (f : Mhd.Req.Fault) :
+    let sc := Mhd.Req.hsScanner (Mhd.Req.FLFlags.ofLevel lvl) fieldStart
+    sc.feedAll (sc.run s) chunks ≠ .fault f :=
+  Mhd.C02.field_no_fault lvl fieldStart s hs chunks f
+
+/-- pool: every reachable pool state is well-formed (blocks in bounds, aligned, pairwise disjoint) -/
+theorem pool_blocks_wf (allocSize : Nat) (ha : allocSize % A = 0) (hs : allocSize < 2 ^ 62)
+    (ops : List Mhd.Pool.Op) (ho : ∀ o ∈ ops, o.Valid) :
+    Mhd.Pool.WF (Mhd.Pool.run (Mhd.Pool.St.init allocSize) ops) :=
+  Mhd.C08.run_wf allocSize ha hs ops ho
 
 /-- Non-vacuity: a concrete history (receive, consume a line, shift back, steal for an
     allocation, switch to sending, build the write buffer, reset for the next request)
